@@ -341,12 +341,51 @@ func (h *harness) process(scripts []*Script) {
 				}
 			}
 		}
+		// whatever looks wrong is run again, first a few at a time, then one by one
+		var sus []int
+		for i := range cur {
+			o := res.Outcomes[i]
+			if o != nil && (len(o.Viol) > 0 || bad[i] || o.Err != "") {
+				sus = append(sus, i)
+			}
+		}
+		final := map[int]*Outcome{}
+		for _, par := range []int{4, 1} {
+			if len(sus) == 0 {
+				break
+			}
+			var again []*Script
+			for _, i := range sus {
+				again = append(again, cur[i])
+				h.ctx.Dist("rerun")
+			}
+			r2, cr2, err2 := h.runBatch(again, par)
+			if err2 != nil || cr2 != nil || (len(r2.LeakedGo) > 0 || r2.LeakedFDs != 0) {
+				break // let confirm() sort it out one by one
+			}
+			var still []int
+			for k, i := range sus {
+				if h.clean(cur[i], r2.Outcomes[k]) {
+					final[i] = r2.Outcomes[k]
+					h.ctx.Dist("rerun-clean")
+				} else {
+					still = append(still, i)
+				}
+			}
+			sus = still
+		}
+		susSet := map[int]bool{}
+		for _, i := range sus {
+			susSet[i] = true
+		}
 		for i, sc := range cur {
 			o := res.Outcomes[i]
 			if o == nil {
 				continue
 			}
-			if len(o.Viol) > 0 || bad[i] || o.Err != "" {
+			if f, ok := final[i]; ok {
+				o = f
+			} else if susSet[i] {
 				h.ctx.Dist("rerun-alone")
 				o = h.confirm(sc, o)
 				if o == nil {
@@ -356,6 +395,17 @@ func (h *harness) process(scripts []*Script) {
 			h.report(sc, o)
 		}
 	}
+}
+
+// clean: no violation, no harness error, and the model agrees
+func (h *harness) clean(sc *Script, o *Outcome) bool {
+	if o == nil || o.Err != "" || len(o.Viol) > 0 {
+		return false
+	}
+	if ops, impl, ok := buildCase(sc, o); ok {
+		return equalLines(h.oracle([][]string{ops})[0], impl)
+	}
+	return true
 }
 
 // confirm re-runs a script alone: timing noise of a loaded machine must not become a verdict.
